@@ -36,7 +36,14 @@ static const int EDGE[] = {1,   1,   2,   3,   7,   8,   9,   15,  16,  17,  31,
                            383, 384, 385, 511, 512, 513, 767, 768, 769, 1023, 1024, 1025, 2047, 2048, 2049};
 #define NEDGE ((int)(sizeof(EDGE) / sizeof(EDGE[0])))
 
+int GEN_MINDIM = 0;
+static int gen_dim0(rng_t *r, int maxd);
 int gen_dim(rng_t *r, int maxd) {
+  int d = gen_dim0(r, maxd);
+  if (GEN_MINDIM > 0 && d < GEN_MINDIM && maxd > GEN_MINDIM) d = GEN_MINDIM + d % (maxd - GEN_MINDIM + 1);
+  return d;
+}
+static int gen_dim0(rng_t *r, int maxd) {
   if (maxd < 1) maxd = 1;
   int c = rng_int(r, 0, 9);
   if (c < 5) {
@@ -55,7 +62,7 @@ int gen_dim_sp(rng_t *r, const int *sp, int nsp, int maxd) {
   if (nsp > 0 && rng_chance(r, 1, 2)) {
     for (int t = 0; t < 8; t++) {
       int d = sp[rng_int(r, 0, nsp - 1)];
-      if (d >= 1 && d <= maxd) return d;
+      if (d >= 1 && d <= maxd && d >= GEN_MINDIM) return d;
     }
   }
   return gen_dim(r, maxd);
